@@ -1584,10 +1584,13 @@ func genRender(r *hx.Run, rng *gen.Rng) error {
 		nw = 1500
 	}
 	realContents := []string{"hi", "hello world foo", "a\nb\nc", "世界你好", "x y z w v", "", "ab cd\nef"}
-	for i := 0; i < nw; i++ {
+	for i := 0; i < nw+3*len(shapes); i++ {
 		sw, sh := rw.Range(1, 10), rw.Range(1, 4)
 		var w *wspec
-		if rw.Chance(1, 3) {
+		if i >= nw {
+			// round 4: every shape at least three times (the random draw left some shapes with 4 cases)
+			w = mkWidget(rw, shapes[(i-nw)%len(shapes)], realContents[(i-nw)%len(realContents)])
+		} else if rw.Chance(1, 3) {
 			w = mkDynamic(rw, 0)
 			for _, k := range w.kids {
 				for x := k; x != nil; x = x.child {
